@@ -216,6 +216,10 @@ var av1SeqHeaders = [][]byte{
 	{10, 11, 0, 0, 0, 66, 167, 191, 230, 46, 223, 200, 66},
 	{8, 0, 0, 0, 66, 167, 191, 228, 96, 13, 0, 64},
 	{0x8, 0x0, 0x0, 0x0, 0x42, 0xab, 0xbf, 0xc3, 0x71, 0xab, 0xe6, 0x1},
+	// with a colour description: primaries / transfer / matrix 1.1.1 and 9.16.9 (HDR10); derived
+	// from the "amd hardware av1" vector of mediacommon's tests
+	{0x08, 0x04, 0x00, 0x00, 0x00, 0x04, 0x00, 0x00, 0x00, 0xf3, 0x00, 0x00, 0x0e, 0x55, 0x77, 0xf8, 0x73, 0xd0, 0x02, 0x7d, 0x10, 0x10, 0x10, 0x10, 0x40},
+	{0x08, 0x04, 0x00, 0x00, 0x00, 0x04, 0x00, 0x00, 0x00, 0xf3, 0x00, 0x00, 0x0e, 0x55, 0x77, 0xf8, 0x73, 0xd0, 0x02, 0x7d, 0x10, 0x91, 0x00, 0x90, 0x40},
 }
 
 // VP9Params describes a key frame header.
